@@ -568,6 +568,8 @@ func classify(err error) string {
 		return "baddesc"
 	case strings.Contains(s, "new zipfile"):
 		return "newzip"
+	case strings.Contains(s, "extra field too long for a ZIP64 directory entry"):
+		return "extratoolong"
 	case errors.Is(err, io.EOF), errors.Is(err, io.ErrUnexpectedEOF), strings.Contains(s, "negative offset"),
 		strings.Contains(s, "seek backwards"), strings.Contains(s, "negative position"), strings.Contains(s, "invalid argument"):
 		return "io"
